@@ -370,7 +370,8 @@ fn queue_case<W: BitArray>(bits: &[bool], bad: &mut Bad, counters: &mut [u64; 4]
     let mut d = c.into_decoder().unwrap_infallible();
     for (k, &b) in bits.iter().enumerate() {
         // with at least one whole unread word left the decoder must not claim exhaustion
-        if bits.len() - k > W::BITS + (W::BITS - 1 - ((k + W::BITS - 1) % W::BITS)) && d.maybe_exhausted() {
+        // (words the decoder has not pulled from its source yet = all words - words touched by the k bits read)
+        if (bits.len() + W::BITS - 1) / W::BITS > (k + W::BITS - 1) / W::BITS && d.maybe_exhausted() {
             bad.push((format!("QueueDecoder::maybe_exhausted | {wn} | true although whole words are unread"), format!("bits {:?} at {k}", bits)));
         }
         let got = d.read_bit().unwrap_infallible();
